@@ -190,7 +190,7 @@ def scenarios(pid, tier, seed):
     if tier == "thorough":
         for sc in dyn_gen.exhaustive_small(rng, budget=12000 if pid == "C06" else 60000):
             out.append(("exhaustive", sc))
-    if pid in ("C01", "C02", "C03", "C04", "C07", "C08", "C10", "C12", "C14"):
+    if pid in ("C01", "C02", "C03", "C04", "C05", "C07", "C08", "C09", "C10", "C11", "C12", "C14"):
         # the same scheduler object run twice (co_run resets its tasks): the second run is judged
         for sc in dyn_gen.targeted(pid, rng, n_t // 6) + [dyn_gen.gen_tree(rng, depth=rng.choice([1, 2])) for _ in range(n_r // 8)]:
             sc = copy.deepcopy(sc)
